@@ -37,6 +37,15 @@ Theorem c03_errexit_compound_repaired :
 Proof. exact compound_repaired. Qed.
 Print Assumptions c03_errexit_compound_repaired.
 
+(** the extended fragment (redirections on compound commands, assignments with a command
+    substitution) is inside the theorem: a non-trivial instance *)
+Theorem c03_redirect_and_assignment :
+  well_scoped ex_redir_assign /\ ghost_free (run_model 20 ex_redir_assign) /\
+  obs_model (run_model 20 ex_redir_assign) = Some (EExit, 1%nat, [EMark 1]) /\
+  obs_spec (run_spec 20 ex_redir_assign) = Some (EExit, 1%nat, [EMark 1]).
+Proof. exact ex_redir_assign_ok. Qed.
+Print Assumptions c03_redirect_and_assignment.
+
 (** pipefail_status: the status brush computes for a pipeline is the last stage's, or under
     pipefail the rightmost non-zero one *)
 Theorem c03_pipefail_status : forall pf rs, fst (pipe_result pf rs) = pipe_status pf (map fst rs).
